@@ -429,13 +429,13 @@ PLANS = {
     "C01": plan(["flow_q", "ibc_q", "ibc_hold_q"], FLOW_MC + IBC_MC + DEEP_MC + ["ibc_hold_q"], ["flow_q", "ibc_q", "ibc_hold_q"], FLOW_EMIT + IBC_EMIT + ["ibc_hold_q"], W_Q, W_T, reach=["HonestOutstanding"], scen=["REC12", "MIG"]),
     "C02": plan(["flow_q", "ibc_q", "fees_q", "ibc_hold_q"], FLOW_MC + IBC_MC + ["fees_t", "flow_deep_t", "ibc_hold_q"], ["flow_q", "flow_treasury_q", "fees_q", "ibc_q", "ibc_hold_q"],
                 ["flow_t", "flow_treasury_t", "fees_t", "ibc_hold_q"] + IBC_EMIT, W_Q, W_T, reach=["Received"], scen=["KF2", "REC12", "MIG"]),
-    "C03": plan(["flow_q", "ibc_q", "same_q", "sender_q", "limits_q"], FLOW_MC + IBC_MC + ["same_t", "sender_q", "limits_q"],
-                ["flow_q", "ibc_q", "same_q", "sender_q", "limits_q"], FLOW_EMIT + IBC_EMIT + ["same_t"], W_Q, W_T),
+    "C03": plan(["flow_q", "ibc_q", "same_q", "sender_q", "limits_q", "ibc_hold_q"], FLOW_MC + IBC_MC + ["same_t", "sender_q", "limits_q"],
+                ["flow_q", "ibc_q", "same_q", "sender_q", "limits_q", "ibc_hold_q"], FLOW_EMIT + IBC_EMIT + ["same_t"], W_Q, W_T),
     "C04": plan(["flow_q", "limits_q", "limits1_q", "downrate_q"], FLOW_MC + ["limits_q", "limits1_q", "downrate_q"], ["flow_q", "limits_q", "limits1_q", "downrate_q"],
                 ["flow_extras_t", "flow_t", "limits_q", "limits1_q", "downrate_q", "flow_resume_t"], W_Q, W_T, wide={"quick": [(30, 60, 0)], "thorough": [(300, 80, 0), (300, 80, 1)]}),
     "C05": plan(["flow_q", "dust_q", "period_q", "long_q", "batches3_q"], FLOW_MC + ["dust_q", "flow_deep_t", "period_q", "long_q", "batches3_q"], ["flow_q", "dust_q", "period_q", "long_q", "batches3_q"],
                 FLOW_EMIT + ["dust_q", "period_q", "long_q", "batches3_q"], W_Q, W_T, reach=["Received"], wide={"quick": [(30, 60, 0)], "thorough": [(300, 80, 0), (300, 80, 1)]}, scen=["CROWD"]),
-    "C06": plan(["flow_q", "period_q", "downrate_q"], FLOW_MC + ["period_q", "downrate_q"], ["flow_q", "period_q", "downrate_q"], FLOW_EMIT + ["period_q", "downrate_q"], W_Q, W_T, reach=["Received"], wide={"quick": [(30, 60, 0)], "thorough": [(300, 80, 0), (300, 80, 1)]}),
+    "C06": plan(["flow_q", "period_q", "downrate_q", "flow_treasury_q"], FLOW_MC + ["period_q", "downrate_q"], ["flow_q", "period_q", "downrate_q", "flow_treasury_q"], FLOW_EMIT + ["period_q", "downrate_q"], W_Q, W_T, reach=["Received"], wide={"quick": [(30, 60, 0)], "thorough": [(300, 80, 0), (300, 80, 1)]}),
     "C07": plan(["ibc_q", "ibc_force_q"], IBC_MC + ["ibc_deep_t", "ibc_force_q"], ["ibc_q", "ibc_force_q"], IBC_EMIT + ["ibc_q", "ibc_force_q"], W_Q, W_T, reach=["Refundable"], scen=["KF2", "REC12", "MIG"]),
     "C08": plan(["gate_q", "own", "gateadmin_t"], GATE_MC + ["own_t"], ["gate_q", "own", "gateadmin_t"], GATE_EMIT + ["own_t"], W_Q, W_T, scen=["MIG"]),
     "C09": plan(["gates_q", "gateadmin_t"], GATE_MC, ["gates_q", "gateadmin_t"], GATE_EMIT, W_Q, W_T, scen=["C09", "MIG"]),
